@@ -15,7 +15,10 @@ CFG = {
     "nontrivial": _nontrivial,
     "level_text": "Theorems about the Lean transcription of the executor (exec), the lowering (lower) and the SELECT modifiers, stated against the "
                   "bottom-up SPARQL algebra (sem); the correspondence run ties the transcription to the real pipeline (parser -> lowering -> optimizer "
-                  "-> executor -> finalize) on generated datasets x queries, and judges the real answers by the algebra directly.",
+                  "-> executor -> finalize) on generated datasets x queries, and judges the real answers by the algebra directly. Main theorem "
+                  "where_clause_correct: for every WHERE clause of the decidable fragment okPat (BGPs, nested groups with group-scoped FILTERs, UNION, "
+                  "GRAPH <iri>/?g, VALUES/UNDEF, sub-selects with arbitrary modifiers over one triple pattern), every dataset clause and every plan "
+                  "the optimizer may pick, the executor's solutions are the algebra's multiset.",
     "level_note": "Trusted: Lean kernel; hand-written model (Model/Engine.lean) tied to the code only by the differential run; values are lexical strings "
                   "(dictionary bijection is C15); numeric literals restricted to canonical integers (f64 parsing of other spellings, NaN/inf are outside the model); "
                   "the cost model is an oracle: the model answers for every assignment of join algorithms and the real answer must be one of them.",
